@@ -1,5 +1,443 @@
 import StepModel.ExpDecl
+/-!
+# C07 — pretty-printed EXPRESS is valid, equivalent to its source and stable
+
+Layout layer: for EVERY line length, indent and position `wrap`/`raw` only drop leading blanks of a fragment and insert a
+newline + indent in front of it (`C07_wrap_decomp`, `C07_layout_nonspace`), `breakLongStr` partitions the string
+(`C07_splitDots_flatten`, `C07_breakLongStr_chars_partial`).
+Structure layer: parentheses are omitted only inside chains of one operator that is associative in EXPRESS and declared
+`%left` (`C07_omit_only_associative`, `C07_omit_left_assoc` — regenerated tables), the normal form the parser reads back is
+equivalent to the expression up to those re-associations (`C07_norm_equiv`), printing the normal form gives the same tokens
+(`C07_stable`), literals survive (`C07_string_roundtrip`, `C07_real_keeps_point`, `C07_binary_literal`), unlabelled rules have
+no label token (`C07_unlabelled_where`), repetition flags stay off shared literals (`C07_no_shared_repeat`).
+-/
 namespace StepModel.Express
 open StepModel.Generated
+
+/-! ## structure layer -/
+
+/-- parentheses are omitted under an equal parent only for operators that are associative in EXPRESS -/
+theorem C07_omit_only_associative : ∀ o : BinOp, o.omitSame = true → o.assocInExpress = true := by
+  intro o; cases o <;> decide
+
+/-- … and those are declared left-associative in expparse.y, so the parser re-reads a chain to the left -/
+theorem C07_omit_left_assoc : ∀ o : BinOp, o.omitSame = true → o.rightAssoc = false := by
+  intro o; cases o <;> decide
+
+/-- every operator the grammar creates has a printed token, padding, a precedence level and a stratum -/
+theorem C07_tables_total : ∀ o : BinOp, o.text ≠ "(* unknown op-expression *)" ∧ o.padded = true ∧ o.level ≠ 0 ∧ o.tokName ≠ "" := by
+  intro o; cases o <;> decide
+
+/-- equality up to re-association of operators that are associative in EXPRESS (congruence closure) -/
+inductive Equiv : Expr → Expr → Prop
+  | refl (e) : Equiv e e
+  | trans {a b c} : Equiv a b → Equiv b c → Equiv a c
+  | assoc (o a b c) : o.assocInExpress = true → Equiv (.bin o a (.bin o b c)) (.bin o (.bin o a b) c)
+  | bin (o) {a a' b b'} : Equiv a a' → Equiv b b' → Equiv (.bin o a b) (.bin o a' b')
+  | neg {a a'} : Equiv a a' → Equiv (.neg a) (.neg a')
+  | not {a a'} : Equiv a a' → Equiv (.not a) (.not a')
+  | dot {a a'} (f) : Equiv a a' → Equiv (.dot a f) (.dot a' f)
+  | group {a a'} (f) : Equiv a a' → Equiv (.group a f) (.group a' f)
+  | index {a a' i i'} : Equiv a a' → Equiv i i' → Equiv (.index a i) (.index a' i')
+  | range {a a' i i' j j'} : Equiv a a' → Equiv i i' → Equiv j j' → Equiv (.range a i j) (.range a' i' j')
+  | query (v) {s s' c c'} : Equiv s s' → Equiv c c' → Equiv (.query v s c) (.query v s' c')
+  | call (f) {a a'} : Equiv a a' → Equiv (.call f a) (.call f a')
+  | aggr {a a'} : Equiv a a' → Equiv (.aggr a) (.aggr a')
+  | cons {e e' t t'} : Equiv e e' → Equiv t t' → Equiv (.cons e t) (.cons e' t')
+  | rep {e e' c c' t t'} : Equiv e e' → Equiv c c' → Equiv t t' → Equiv (.rep e c t) (.rep e' c' t')
+
+theorem equiv_attach (o : BinOp) (h : o.assocInExpress = true) (l : Expr) : ∀ r, Equiv (.bin o l r) (attach o l r) := by
+  intro r
+  induction r with
+  | bin o' r1 r2 ih1 _ =>
+    unfold attach
+    by_cases ho : o' = o
+    · subst ho
+      simp only [if_true]
+      exact Equiv.trans (Equiv.assoc o' l r1 r2 h) (Equiv.bin o' ih1 (Equiv.refl _))
+    · simp only [ho, if_false]; exact Equiv.refl _
+  | _ => unfold attach; exact Equiv.refl _
+
+theorem equiv_normWith (f : BinOp → Bool) (hf : ∀ o, f o = true → o.assocInExpress = true) : ∀ e, Equiv e (normWith f e) := by
+  intro e
+  induction e with
+  | bin o a b iha ihb =>
+    unfold normWith
+    by_cases h : f o = true
+    · simp only [h, if_true]
+      exact Equiv.trans (Equiv.bin o iha ihb) (equiv_attach o (hf o h) _ _)
+    · simp only [h]; exact Equiv.bin o iha ihb
+  | neg a ih => unfold normWith; exact Equiv.neg ih
+  | not a ih => unfold normWith; exact Equiv.not ih
+  | dot a f ih => unfold normWith; exact Equiv.dot f ih
+  | group a f ih => unfold normWith; exact Equiv.group f ih
+  | index a i iha ihi => unfold normWith; exact Equiv.index iha ihi
+  | range a i j iha ihi ihj => unfold normWith; exact Equiv.range iha ihi ihj
+  | query v s c ihs ihc => unfold normWith; exact Equiv.query v ihs ihc
+  | call f a ih => unfold normWith; exact Equiv.call f ih
+  | aggr a ih => unfold normWith; exact Equiv.aggr ih
+  | cons e t ihe iht => unfold normWith; exact Equiv.cons ihe iht
+  | rep e c t ihe ihc iht => unfold normWith; exact Equiv.rep ihe ihc iht
+  | lit l => unfold normWith; exact Equiv.refl _
+  | ident s => unfold normWith; exact Equiv.refl _
+  | nil => unfold normWith; exact Equiv.refl _
+
+/-- what the parser reads back from exppp's text (`norm`: chains flattened exactly where exppp omits parentheses) differs from
+the expression only by re-association of operators that are associative in EXPRESS -/
+theorem C07_norm_equiv (e : Expr) : Equiv e (norm e) :=
+  equiv_normWith BinOp.omitSame C07_omit_only_associative e
+
+/-- the oracle's normal form is sound for the same reason -/
+theorem C07_normSpec_equiv (e : Expr) : Equiv e (normSpec e) := equiv_normWith _ (fun _ h => h) e
+
+example : norm (.bin .plus (.ident "a") (.bin .plus (.ident "b") (.ident "c")))
+    = .bin .plus (.bin .plus (.ident "a") (.ident "b")) (.ident "c") := by decide
+example : norm (.bin .eq (.ident "x") (.bin .eq (.ident "x") (.lit (.int 1))))
+    = .bin .eq (.ident "x") (.bin .eq (.ident "x") (.lit (.int 1))) := by decide
+
+/-! ### stability at token level -/
+
+theorem binParen_same (o : BinOp) (h : o.omitSame = true) : binParen o true (some o) = false := by
+  simp [binParen, h]
+
+theorem toks_attach (sh : Shared) (o : BinOp) (h : o.omitSame = true) (l : Expr) :
+    ∀ r p q, toks sh (attach o l r) p q = toks sh (.bin o l r) p q := by
+  intro r
+  induction r with
+  | bin o' r1 r2 ih1 _ =>
+    intro p q
+    unfold attach
+    by_cases ho : o' = o
+    · subst ho
+      simp only [if_true]
+      simp only [toks, ih1 true (some o'), binParen_same o' h]
+      simp [List.append_assoc]
+    · simp only [ho, if_false]
+  | _ => intro p q; unfold attach; rfl
+
+theorem sharedRep_normWith (f : BinOp → Bool) (sh : Shared) (e : Expr) : sharedRep sh (normWith f e) = sharedRep sh e := by
+  cases e with
+  | bin o a b =>
+    unfold normWith
+    by_cases h : f o = true
+    · simp only [h, if_true]
+      cases hb : normWith f b with
+      | bin o' r1 r2 =>
+        unfold attach
+        by_cases ho : o' = o <;> simp [ho, sharedRep]
+      | _ => simp [attach, sharedRep]
+    · simp [h, sharedRep]
+  | _ => simp [normWith, sharedRep]
+
+theorem count_normWith_lit (f : BinOp → Bool) (c : Expr) : countTok (normWith f c) = countTok c := by
+  cases c with
+  | bin o a b =>
+    unfold normWith
+    by_cases h : f o = true
+    · simp only [h, if_true]
+      cases hb : normWith f b with
+      | bin o' r1 r2 => unfold attach; by_cases ho : o' = o <;> simp [ho, countTok]
+      | _ => simp [attach, countTok]
+    · simp [h, countTok]
+  | _ => simp [normWith, countTok]
+
+theorem toks_norm_all (sh : Shared) (e : Expr) :
+    (∀ p q, toks sh (norm e) p q = toks sh e p q) ∧ (∀ fst, argToks sh (norm e) fst = argToks sh e fst)
+      ∧ (∀ fst, itemToks sh (norm e) fst = itemToks sh e fst) := by
+  induction e with
+  | bin o a b iha ihb =>
+    refine ⟨?_, ?_, ?_⟩
+    · intro p q
+      show toks sh (normWith _ (.bin o a b)) p q = _
+      unfold normWith
+      by_cases h : o.omitSame = true
+      · rw [if_pos h, toks_attach sh o h]
+        simp only [toks]
+        rw [show normWith BinOp.omitSame a = norm a from rfl, show normWith BinOp.omitSame b = norm b from rfl, iha.1, ihb.1]
+      · rw [if_neg h]
+        simp only [toks]
+        rw [show normWith BinOp.omitSame a = norm a from rfl, show normWith BinOp.omitSame b = norm b from rfl, iha.1, ihb.1]
+    · intro fst
+      show argToks sh (normWith _ (.bin o a b)) fst = _
+      unfold normWith
+      by_cases h : o.omitSame = true
+      · simp only [h, if_true]
+        cases hb : normWith BinOp.omitSame b with
+        | bin o' r1 r2 => unfold attach; by_cases ho : o' = o <;> simp [ho, argToks]
+        | _ => simp [attach, argToks]
+      · simp [h, argToks]
+    · intro fst
+      show itemToks sh (normWith _ (.bin o a b)) fst = _
+      unfold normWith
+      by_cases h : o.omitSame = true
+      · simp only [h, if_true]
+        cases hb : normWith BinOp.omitSame b with
+        | bin o' r1 r2 => unfold attach; by_cases ho : o' = o <;> simp [ho, itemToks]
+        | _ => simp [attach, itemToks]
+      · simp [h, itemToks]
+  | neg a ih => exact ⟨fun p q => by simp [norm, normWith, toks]; exact ih.1 true none |> fun h => by simpa [norm] using h, fun _ => by simp [norm, normWith, argToks], fun _ => by simp [norm, normWith, itemToks]⟩
+  | not a ih => exact ⟨fun p q => by simp [norm, normWith, toks]; exact ih.1 true none |> fun h => by simpa [norm] using h, fun _ => by simp [norm, normWith, argToks], fun _ => by simp [norm, normWith, itemToks]⟩
+  | dot a f ih => exact ⟨fun p q => by simp [norm, normWith, toks]; exact ih.1 true none |> fun h => by simpa [norm] using h, fun _ => by simp [norm, normWith, argToks], fun _ => by simp [norm, normWith, itemToks]⟩
+  | group a f ih => exact ⟨fun p q => by simp [norm, normWith, toks]; exact ih.1 true none |> fun h => by simpa [norm] using h, fun _ => by simp [norm, normWith, argToks], fun _ => by simp [norm, normWith, itemToks]⟩
+  | index a i iha ihi =>
+    refine ⟨fun p q => ?_, fun _ => by simp [norm, normWith, argToks], fun _ => by simp [norm, normWith, itemToks]⟩
+    have h1 := iha.1 true none; have h2 := ihi.1 false none
+    simp only [norm] at h1 h2 ⊢
+    simp [normWith, toks, h1, h2]
+  | range a i j iha ihi ihj =>
+    refine ⟨fun p q => ?_, fun _ => by simp [norm, normWith, argToks], fun _ => by simp [norm, normWith, itemToks]⟩
+    have h1 := iha.1 true none; have h2 := ihi.1 false none; have h3 := ihj.1 false none
+    simp only [norm] at h1 h2 h3 ⊢
+    simp [normWith, toks, h1, h2, h3]
+  | query v s c ihs ihc =>
+    refine ⟨fun p q => ?_, fun _ => by simp [norm, normWith, argToks], fun _ => by simp [norm, normWith, itemToks]⟩
+    have h1 := ihs.1 true none; have h2 := ihc.1 true none
+    simp only [norm] at h1 h2 ⊢
+    simp [normWith, toks, h1, h2]
+  | call f a ih =>
+    refine ⟨fun p q => ?_, fun _ => by simp [norm, normWith, argToks], fun _ => by simp [norm, normWith, itemToks]⟩
+    have h1 := ih.2.1 true
+    simp only [norm] at h1 ⊢
+    simp [normWith, toks, h1]
+  | aggr a ih =>
+    refine ⟨fun p q => ?_, fun _ => by simp [norm, normWith, argToks], fun _ => by simp [norm, normWith, itemToks]⟩
+    have h1 := ih.2.2 true
+    simp only [norm] at h1 ⊢
+    simp [normWith, toks, h1]
+  | cons e t ihe iht =>
+    refine ⟨fun p q => by simp [norm, normWith, toks], fun fst => ?_, fun fst => ?_⟩
+    · have h1 := ihe.1 false none; have h2 := iht.2.1 false
+      simp only [norm] at h1 h2 ⊢
+      simp [normWith, argToks, h1, h2]
+    · have h1 := ihe.1 false none; have h2 := iht.2.2 false
+      simp only [norm] at h1 h2 ⊢
+      simp [normWith, itemToks, h1, h2, sharedRep_normWith]
+  | rep e c t ihe ihc iht =>
+    refine ⟨fun p q => by simp [norm, normWith, toks], fun fst => by simp [norm, normWith, argToks], fun fst => ?_⟩
+    have h1 := ihe.1 false none; have h2 := iht.2.2 false; have h3 := ihc.1 false none
+    simp only [norm] at h1 h2 h3 ⊢
+    simp only [normWith, itemToks, h1, h2, h3, sharedRep_normWith, count_normWith_lit]
+  | lit l => exact ⟨fun _ _ => rfl, fun _ => rfl, fun _ => rfl⟩
+  | ident s => exact ⟨fun _ _ => rfl, fun _ => rfl, fun _ => rfl⟩
+  | nil => exact ⟨fun _ _ => rfl, fun _ => rfl, fun _ => rfl⟩
+
+/-- stability: printing what the parser reads back (`norm e`) gives token for token what printing `e` gave, in every
+context (`paren`, parent operator) and for every state of the shared-literal flags -/
+theorem C07_stable (sh : Shared) (e : Expr) (paren : Bool) (prev : Option BinOp) :
+    toks sh (norm e) paren prev = toks sh e paren prev := (toks_norm_all sh e).1 paren prev
+
+/-- the normal form is a fixed point: a third printing changes nothing either -/
+theorem C07_stable_twice (sh : Shared) (e : Expr) (paren : Bool) (prev : Option BinOp) :
+    toks sh (norm (norm e)) paren prev = toks sh e paren prev := by
+  rw [C07_stable, C07_stable]
+
+/-! ### literals, labels, shared nodes -/
+
+theorem unescQ_escape : ∀ s : List Char,
+    unescQ (s.flatMap (fun c => if c = '\'' then ['\'', '\''] else [c])) = s := by
+  intro s
+  induction s with
+  | nil => rfl
+  | cons c s ih =>
+    by_cases hc : c = '\''
+    · subst hc
+      simp only [List.flatMap_cons, if_true, List.cons_append, List.nil_append]
+      rw [unescQ]; simp [ih]
+    · simp only [List.flatMap_cons, hc, if_false, List.cons_append, List.nil_append]
+      generalize hr : s.flatMap (fun c => if c = '\'' then ['\'', '\''] else [c]) = r at ih ⊢
+      cases r with
+      | nil => rw [unescQ]; simp [← ih, unescQ]
+      | cons d r => rw [unescQ]; simp [hc, ih]
+
+/-- a simple string literal is read back to the value it was printed from: apostrophes are doubled on output and the
+scanner halves them again — for every string -/
+theorem C07_string_roundtrip (s : List Char) : unescQ (escQ s) = s := by
+  have h : ExpPrec.stringQuoteDoubled = true := rfl
+  simp only [escQ, h, if_true]
+  exact unescQ_escape s
+
+/-- a binary literal is printed from the field the parser stored it in -/
+theorem C07_binary_literal (s : String) : litToks (.bin s) = [.bin s] := by
+  have h : ExpPrec.binaryPrintedFrom = ExpPrec.binaryStoredIn := by decide
+  simp [litToks, h]
+
+/-- an unlabelled rule is printed without a label (the parser's placeholder is not a token of the language) -/
+theorem C07_unlabelled_where (e : Expr) : effLabel ⟨none, e⟩ = none := by
+  simp only [effLabel]; decide
+
+/-- a labelled rule keeps its label -/
+theorem C07_labelled_where (l : String) (e : Expr) (h : l ∉ ExpPrec.whereNoLabelNames) :
+    effLabel ⟨some l, e⟩ = some l := by
+  simp [effLabel, h]
+
+/-- parsing a repetition count leaves the shared literal nodes `0`, `1`, `?` untouched, whatever the schema -/
+theorem C07_no_shared_repeat (s : Schema) : s.shared = Shared.clean := by
+  have h : ExpPrec.repeatOverwritesCountType = false := rfl
+  simp [Schema.shared, h]
+
+/-! ## layout layer -/
+
+def isWs (c : Char) : Bool := c == ' ' || c == '\n'
+/-- the characters that are not blanks or newlines, in order -/
+def nonWs (s : List Char) : List Char := s.filter (fun c => !isWs c)
+
+theorem nonWs_append (a b : List Char) : nonWs (a ++ b) = nonWs a ++ nonWs b := by simp [nonWs]
+
+theorem text_emit (st : PState) (s : List Char) (d : Bool) : (emit st s d).text = st.text ++ s := by
+  simp [emit, PState.text]
+
+theorem text_raw (st : PState) (s : List Char) : (raw st s).text = st.text ++ s := by
+  simp [raw, emit, PState.text]
+
+theorem strip_eq_drop (sl : Bool) : ∀ s : List Char, ∃ k, strip sl s = s.drop k ∧ ∀ c ∈ s.take k, c = ' ' := by
+  intro s
+  induction s with
+  | nil => exact ⟨0, rfl, by simp⟩
+  | cons c rest ih =>
+    unfold strip
+    split
+    · rename_i h
+      obtain ⟨k, hk, hall⟩ := ih
+      refine ⟨k + 1, by simpa using hk, ?_⟩
+      intro x hx
+      simp only [List.take_succ_cons, List.mem_cons] at hx
+      rcases hx with rfl | hx
+      · exact h.1
+      · exact hall x hx
+    · exact ⟨0, rfl, by simp⟩
+
+/-- `wrap`, for every state (line length, indent, position, last-blank flag) and every fragment: the text grows by an
+optional "newline + indent2 blanks" followed by the fragment minus some of its *leading blanks* — nothing else is removed,
+nothing else is inserted -/
+theorem C07_wrap_decomp (st : PState) (s : List Char) :
+    ∃ sep k, (wrap st s).text = st.text ++ sep ++ s.drop k ∧ (sep = [] ∨ sep = newlinePiece st.indent2)
+      ∧ ∀ c ∈ s.take k, c = ' ' := by
+  obtain ⟨k1, h1, a1⟩ := strip_eq_drop st.spaceLast s
+  unfold wrap
+  simp only []
+  split
+  · obtain ⟨k2, h2, a2⟩ := strip_eq_drop (emit st (newlinePiece st.indent2) false).spaceLast (strip st.spaceLast s)
+    refine ⟨newlinePiece st.indent2, k1 + k2, ?_, Or.inr rfl, ?_⟩
+    · simp only [text_emit, PState.text] at *
+      simp only [emit] at h2 ⊢
+      rw [h2, h1, List.drop_drop]
+      simp [PState.text, Nat.add_comm]
+    · intro c hc
+      rw [← List.take_append_drop k1 s, List.take_add] at hc
+      rw [h1] at a2
+      simp only [List.take_append_drop] at hc
+      rcases List.mem_append.mp hc with hc | hc
+      · exact a1 c hc
+      · exact a2 c hc
+  · obtain ⟨k2, h2, a2⟩ := strip_eq_drop st.spaceLast (strip st.spaceLast s)
+    refine ⟨[], k1 + k2, ?_, Or.inl rfl, ?_⟩
+    · simp only [emit, PState.text] at *
+      rw [h2, h1, List.drop_drop]
+      simp [Nat.add_comm]
+    · intro c hc
+      rw [← List.take_append_drop k1 s, List.take_add] at hc
+      rw [h1] at a2
+      simp only [List.take_append_drop] at hc
+      rcases List.mem_append.mp hc with hc | hc
+      · exact a1 c hc
+      · exact a2 c hc
+
+theorem nonWs_newlinePiece (n : Nat) : nonWs (newlinePiece n) = [] := by
+  simp [nonWs, newlinePiece, isWs, List.filter_replicate]
+
+theorem nonWs_drop_blanks (s : List Char) (k : Nat) (h : ∀ c ∈ s.take k, c = ' ') : nonWs (s.drop k) = nonWs s := by
+  conv => rhs; rw [← List.take_append_drop k s]
+  rw [nonWs_append]
+  have : nonWs (s.take k) = [] := by
+    simp only [nonWs, List.filter_eq_nil_iff]
+    intro c hc; simp [isWs, h c hc]
+  simp [this]
+
+theorem nonWs_wrap (st : PState) (s : List Char) : nonWs (wrap st s).text = nonWs st.text ++ nonWs s := by
+  obtain ⟨sep, k, ht, hsep, hk⟩ := C07_wrap_decomp st s
+  rw [ht, nonWs_append, nonWs_append, nonWs_drop_blanks s k hk]
+  rcases hsep with rfl | rfl
+  · simp [nonWs]
+  · simp [nonWs_newlinePiece]
+
+def Frag.chars : Frag → List Char
+  | .raw s => s | .wrap s => s | .str s => s
+def Frag.isStr : Frag → Bool
+  | .str _ => true | _ => false
+
+/-- the layout engine, for EVERY line length / indent / start position and every list of `raw`/`wrap` fragments: the
+non-blank characters of the output are exactly those of the fragments, in order — wrapping only moves white space -/
+theorem C07_layout_nonspace (fs : List Frag) (hfs : ∀ f ∈ fs, f.isStr = false) :
+    ∀ st : PState, nonWs (run st fs).text = nonWs st.text ++ nonWs (fs.flatMap Frag.chars) := by
+  induction fs with
+  | nil => intro st; simp [run, nonWs]
+  | cons f fs ih =>
+    intro st
+    have hf := hfs f (List.mem_cons_self)
+    have ih' := ih (fun g hg => hfs g (List.mem_cons_of_mem _ hg))
+    simp only [run, List.foldl_cons] at ih' ⊢
+    rw [ih' (step st f)]
+    cases f with
+    | raw s => simp [step, text_raw, nonWs_append, Frag.chars, List.append_assoc]
+    | wrap s => simp [step, nonWs_wrap, nonWs_append, Frag.chars, List.append_assoc]
+    | str s => simp [Frag.isStr] at hf
+
+/-- `nextBreakpoint` cuts the string into consecutive pieces: nothing is lost, duplicated or reordered -/
+theorem C07_splitDots_flatten : ∀ s : List Char, (splitDots s).flatten = s := by
+  intro s
+  induction s with
+  | nil => rfl
+  | cons c cs ih =>
+    unfold splitDots
+    split
+    · simp [ih]
+    · split
+      · rename_i h; rw [h] at ih; simp at ih; simp [← ih]
+      · rename_i p ps h; rw [h] at ih; simp at ih; simp [← ih]
+
+/-- characters `breakLongStr` itself may add: apostrophes, the newline + indent, "+ " -/
+def isSepChar (c : Char) : Bool := c == '\'' || c == '\n' || c == '+' || c == ' '
+def payload (s : List Char) : List Char := s.filter (fun c => !isSepChar c)
+
+theorem payload_append (a b : List Char) : payload (a ++ b) = payload a ++ payload b := by simp [payload]
+
+theorem payload_maybeBreak (st : PState) (len : Nat) (first : Bool) :
+    payload (maybeBreak st len first).text = payload st.text := by
+  unfold maybeBreak
+  split
+  · split <;> simp [text_raw, payload_append, payload, breakSepFirst, breakSep, newlinePiece, isSepChar, List.filter_replicate]
+  · split
+    · split <;> simp [text_raw, payload_append, payload, isSepChar]
+    · rfl
+
+theorem payload_breakPieces : ∀ (ps : List (List Char)) (st : PState) (first : Bool),
+    payload (breakPieces st ps first).text = payload st.text ++ payload ps.flatten := by
+  intro ps
+  induction ps with
+  | nil => intro st first; simp [breakPieces, payload]
+  | cons p ps ih =>
+    intro st first
+    simp only [breakPieces]
+    rw [ih, text_raw, payload_append, payload_maybeBreak]
+    simp [payload_append, List.append_assoc]
+
+/-- `breakLongStr`, for every state and every string: apart from apostrophes, blanks, newlines and '+' (the characters the
+splitting itself uses) the characters of the string come out exactly once and in order, wherever the breaks fall.
+Partial: blanks, '+' and apostrophes *inside* the string are not tracked by this statement (the apostrophes are covered by
+`C07_string_roundtrip`, the pieces by `C07_splitDots_flatten`) -/
+theorem C07_breakLongStr_chars_partial (st : PState) (s : List Char) :
+    payload (breakLongStr st s).text = payload st.text ++ payload (escQ s) := by
+  unfold breakLongStr
+  simp only []
+  split
+  · split <;> simp [text_raw, payload_append, payload, isSepChar]
+  · rw [text_raw, payload_append, payload_breakPieces, C07_splitDots_flatten]
+    simp [payload, isSepChar]
+
+/-- hypotheses are satisfiable / the engine really breaks lines: width 10, continuation indent 4 -/
+example : (run { linelen := 10, indent2 := 4, curpos := 9 } [W "abc", R " ", W "+", W " ", W "de"]).text
+    = "\n    abc + \n    de".toList := by decide
+example : (breakLongStr { linelen := 12, indent2 := 2, curpos := 8 } "ab.cd.ef".toList).text
+    = " 'ab.'\n  + 'cd.ef' ".toList := by decide
 
 end StepModel.Express
